@@ -282,8 +282,13 @@ fn key_rc<S: HK>(c: &C<S>, key: u8) -> Rc<u8> {
 /// there or has the wrong value (`stale`).
 pub(crate) struct Tags { pub lost: &'static str, pub stale: &'static str }
 
+/// Kani's assert! is assert-then-assume: behind a failing assertion nothing else is reported on that path,
+/// so a change that breaks several properties at once would be attributed to the first assertion's tags
+/// only. Each check is therefore taken or skipped by a fresh nondeterministic choice: every assertion is
+/// still decided for all inputs (on the paths that take it), and a later one stays reachable on the paths
+/// that skipped an earlier, failing one.
 macro_rules! chk {
-    ($cond:expr, $msg:expr) => { assert!($cond, $msg) };
+    ($cond:expr, $msg:expr) => { if kani::any::<bool>() { assert!($cond, $msg) } };
 }
 
 /// Compare the real post-state with the expected ghost `e` and re-establish Inv.
